@@ -8,7 +8,7 @@ from __future__ import annotations
 
 import random
 
-from .. import mslab, msmodel as ms
+from .. import mslab, msmodel as ms, textgen
 from ..core import Result, split
 
 LEVEL = "exploration"
@@ -60,9 +60,16 @@ def plan(tier, seed):
     return out
 
 
+def wild_line(rng, name=False):
+    """one line (or one name) drawn from broad character classes (rv/textgen.py)"""
+    t = textgen.text(rng, 1, 10, exclude=["nul", "line-break"] + (["control"] if name else []))
+    t = t.replace("\n", "").replace("\r", "").replace("\x00", "")
+    return (t or "w").encode("utf-8")
+
+
 def gen_body(rng):
     k = rng.choice([0, 1, 1, 2, 3, 5])
-    lines = [rng.choice(LINES) for _ in range(k)]
+    lines = [rng.choice(LINES) if rng.random() > 0.15 else wild_line(rng) for _ in range(k)]
     nl = rng.choice([b"\r\n", b"\r\n", b"\n"])
     body = nl.join(lines)
     if lines and rng.random() < 0.7:
@@ -178,6 +185,11 @@ def run_names(shard, res: Result):
     rng = random.Random(shard["rs"])
     for i in range(shard["n"]):
         names = rng.sample(NAMES, rng.randint(0, 4))
+        if names and rng.random() < 0.25:
+            w = wild_line(rng, name=True)
+            if w not in names:
+                names[rng.randrange(len(names))] = w
+                res.count("wild-names")
         active = rng.choice(names) if names and rng.random() < 0.6 else None
         for how in ("quoted", "literal"):
             ok, out, sess = list_once(names, active, how)
